@@ -699,4 +699,15 @@ theorem size_body_never_underflows {α : Type} {cap : Nat} (hc : 0 < cap) {s s' 
   · omega
   · omega
 
+/-
+OPEN:
+  * NOT translated (hand translation in Model.lean, tied by the step-by-step replay only): the effect statements of `ThreadPool::run` after its
+    decision (the spawn / retire branches under the mutex, the purge of the context list, `Thread::start` and its failure branch), `~ThreadPool`
+    (counted loop over `_threadCount` + iterator loop of joins), `startProc` (lazy pool under the spin lock, arming), `Signal.cpp`.
+  * the semantics the translator gives to the C++ subset (one micro-step per shared access with the thread-local run-on, ring tickets as `Nat`,
+    mask arithmetic, `(usize)-1` as `none`, the destructor of the trivially destructible `Job`, `Atomic::*`) is an assumption (MANIFEST note);
+    `worker_loop_is_translated` / `run_push_loop_is_translated` compare frames after expanding the model's call-site frames
+    (`expandW`, `expandR`: frames that only push a call and its return address).
+-/
+
 end Nstd.Future.C10
